@@ -11,5 +11,7 @@ OStep == IF "C20_OSTEP" \in DOMAIN IOEnv THEN atoi(IOEnv.C20_OSTEP) ELSE 1
 EnvOffs == {o \in OLo..OHi : (o - OLo) % OStep = 0}
 EnvKs   == IF "C20_FK" \in DOMAIN IOEnv THEN {atoi(IOEnv.C20_FK)} ELSE {None, 1, 2, -1}
 QKs == {None, 2, -1}
+LongKs == {None}          \* long trajectories (two-digit iteration numbers) and two-digit ids: MC_LogFile_long_*
+LongOffs == {4}
 SrcKs == {None, -1}      \* the sources run (MC_LogSrc_*): one neutral and one scaling k
 =============================================================================
